@@ -12,7 +12,15 @@ Streams (n = number of generated programs; every program yields one text per str
   tokmut  : one token of the program deleted / duplicated / swapped / replaced / inserted
   charmut : 1-3 characters of the rendered text deleted / inserted / replaced
   noise   : random characters / random words over the alphabet of Jaqal
+  hdrafter: near misses of "headers before bodies": a header statement of each kind (register, let, map,
+            usepulses) after a body consisting of ONE kind of statement only (gate, `{}`, `<>`, subcircuit,
+            loop, macro definition), all 24 combinations in turn
+  cmtpos  : an illegal character inside / a stray token after a valid program, preceded by multi-line block
+            comments (line numbers must advance by the newlines inside comments)
   edge    : a fixed list of corner cases
+Block comments are drawn from an alphabet rich in `*`, `/` and newlines, often end in `**…*/`, include
+`/**/`, `/***/`, `/****/`, `/*/*/`, and the comment density varies per program (distribution
+`block_comments_{0,1,>=2}`).
 corr   : `parse_to_sexpression` and `JaqalLexer().tokenize` vs the model: acceptance, S-expression / token
          list, and (line, column) of errors, exactly (floats: the model's exact decimal must round to the
          float the lexer produced).
@@ -24,6 +32,8 @@ oracle : properties of the real code alone
                           at a token start (real lexer) that is not before the first token of the top-level
                           statement containing the mutation
   only_JaqalParseError  : no input of any stream raises anything but JaqalParseError
+  header_after_body     : every `hdrafter` text is rejected at the first token of the misplaced header statement
+  error_pos_after_comments : every `cmtpos` text is rejected exactly at the offending character / token
 """
 import argparse
 import collections
@@ -205,6 +215,8 @@ class Gen:
     def __init__(self, rng):
         self.r = rng
         self.n_gates = 0  # gate statements generated since the last program() call
+        self.comment_rate = 0.2  # probability of a block comment between two tokens (set per rendering)
+        self.n_comments = 0  # block comments emitted by the last render_pos()
 
     def ident(self):
         r = self.r
@@ -349,6 +361,49 @@ class Gen:
             out.append("SEQ")
         return out + ["}"]
 
+    HEADER_KINDS = ("register", "let", "map", "usepulses")
+    BODY_KINDS = ("gate", "seq_block", "par_block", "subcircuit", "loop", "macro")
+
+    def header_of(self, kind):
+        r = self.r
+        if kind == "register":
+            return ["register", self.ident(), "[", self.ident() if r.random() < 0.3 else self.posint(), "]"]
+        if kind == "let":
+            return ["let", self.ident(), self.number() if r.random() < 0.5 else self.int_()]
+        if kind == "map":
+            return ["map", self.ident(), self.ident()] + r.choice([[], ["[", self.let_or_int(), "]"], ["[", ":", "]"], ["[", self.let_or_int(), ":", self.let_or_int(), ":", self.let_or_int(), "]"]])
+        return ["from", r.choice(["qscout.v1.std", ".pulses", "a"]), "usepulses", "*"]
+
+    def body_of(self, kind):
+        r = self.r
+        if kind == "gate":
+            return self.gate()
+        if kind == "seq_block":
+            return self.seq_block(2)
+        if kind == "par_block":
+            return self.par_block(2)
+        if kind == "subcircuit":
+            return ["subcircuit"] + ([self.let_or_int()] if r.random() < 0.5 else []) + self.seq_block(2)
+        if kind == "loop":
+            return ["loop", self.let_or_int()] + self.gate_block(2)
+        return ["macro"] + [self.ident() for _ in range(r.randrange(1, 4))] + self.gate_block(2)
+
+    def header_after_body(self, hkind, bkind):
+        """A program whose body consists ONLY of statements of kind `bkind`, followed by a header statement
+        of kind `hkind`. Returns the tokens and the index of the header statement's first token (where the
+        error must be reported)."""
+        r = self.r
+        out = ["SEQPAD"]
+        for _ in range(r.choice([0, 0, 1, 2])):
+            out += self.header_of(r.choice(self.HEADER_KINDS)) + ["SEQ"]
+        for _ in range(r.choice([1, 1, 2, 3])):
+            out += self.body_of(bkind) + ["SEQ"]
+        at = len(out)
+        out += self.header_of(hkind)
+        if r.random() < 0.5:
+            out += ["SEQ"] + r.choice([[], self.gate(), self.header_of(r.choice(self.HEADER_KINDS))])
+        return out, at
+
     def program(self, valid=True):
         """Token list of a program. Sets `self.n_gates` (number of gate statements) and `self.stmt_start`
         (for every token index, the index of the first token of its top-level statement; separators
@@ -381,29 +436,37 @@ class Gen:
 
     # ---- layout
 
+    STAR_COMMENTS = ["/**/", "/***/", "/****/", "/*****/", "/*/*/", "/* banner **/", "/** x **/", "/***\n * doc\n ***/",
+                     "/*\n*/", "/*\n\n\n*/", "/* a\n * b\n */", "/*//*/", "/* // */", "/*/ */", "/** /* **/"]
+
     def comment(self, allow_line):
+        """A comment. Block comment bodies are drawn from an alphabet rich in `*`, `/` and newlines and often
+        end in one or more `*` right before the closing `*/`; the only constraint is that the body contains
+        no `*/` of its own (the comment ends at the FIRST `*/` after its `/*`)."""
         r = self.r
         k = r.random()
-        if allow_line and k < 0.4:
-            return "//" + "".join(r.choice(" ab/*;|{}<>x1.'$") for _ in range(r.randrange(0, 8)))
-        body = "".join(r.choice(" ab\n*/;|{}<>x1.'$") for _ in range(r.randrange(0, 10)))
-        body = body.replace("*/", "* /")
-        if body.endswith("*"):
-            body += " "
-        if body.startswith("/"):
-            # "/*/" would not be closed by this slash, fine, but keep it simple
-            body = " " + body
+        self.n_comments += 1
+        if allow_line and k < 0.3:
+            self.n_comments -= 1
+            return "//" + "".join(r.choice(" ab/*;|{}<>x1.'$*/") for _ in range(r.randrange(0, 8)))
+        if k < 0.5:
+            return r.choice(self.STAR_COMMENTS)
+        alphabet = " ab\n*/;|{}<>x1.'$" if k < 0.75 else "**//\n\n *x"
+        body = "".join(r.choice(alphabet) for _ in range(r.randrange(0, 12)))
+        body += "*" * r.choice([0, 0, 1, 1, 2, 3])
+        while "*/" in body:
+            body = body.replace("*/", r.choice(["* /", "*", "/", "*\n/"]), 1)
+        # a body ending in "*" is fine: "/* x **/" closes at its last two characters
         return "/*" + body + "*/"
 
     def gap(self, need_space):
         """Layout between two tokens of one statement (no newline outside a block comment)."""
         r = self.r
-        k = r.random()
-        if k < 0.6:
+        if r.random() < self.comment_rate:
+            return r.choice(["", " "]) + self.comment(False) + r.choice(["", " "])
+        if r.random() < 0.75:
             return " " if need_space or r.random() < 0.5 else ""
-        if k < 0.8:
-            return r.choice([" ", "  ", "\t", " \t "])
-        return r.choice(["", " "]) + self.comment(False) + r.choice(["", " "])
+        return r.choice([" ", "  ", "\t", " \t "])
 
     def sep(self, chars, at_least_one):
         """A run of separators (`chars` = ';\\n' or '|\\n') with layout, possibly empty."""
@@ -413,9 +476,9 @@ class Gen:
         for _ in range(n):
             c = r.choice(chars)
             pre = r.choice(["", "", " ", "\t"])
-            if c == "\n" and r.random() < 0.25:
+            if c == "\n" and r.random() < max(0.25, self.comment_rate):
                 pre += self.comment(True)
-            elif r.random() < 0.1:
+            elif r.random() < self.comment_rate / 2:
                 pre += self.comment(False) + " "
             s += pre + c
         return s + r.choice(["", "", " ", "  "])
@@ -429,6 +492,7 @@ class Gen:
         offs = []
         n = 0
         prev = None
+        self.n_comments = 0
         for t in toks:
             piece = ""
             if t == "SEQ":
@@ -567,13 +631,17 @@ def real_token_starts(text):
 
 
 def oracle_relayout(text1, text2, n_gates):
-    """-> (relayout_ok, detail, nodrop_ok, detail)"""
+    """-> (relayout_ok, detail, nodrop_ok | None, detail).  The gate count is checked on every rendering
+    that is accepted, also when the other one is rejected."""
     r1, r2 = real_parse(text1), real_parse(text2)
+    counts = [count_gates(show(r[1])) for r in (r1, r2) if r[0] == "ok"]
+    nodrop = all(g == n_gates for g in counts) if counts else None
+    d2 = f"{counts} gate statements in the accepted tree(s), {n_gates} generated"
     if r1[0] != "ok" or r2[0] != "ok":
-        return False, f"not accepted: {r1[0]} {show(r1[1]) if r1[0]=='err' else r1[1] if r1[0]=='crash' else ''} / {r2[0]}", None, ""
+        what = [r[0] + (" " + json.dumps(r[1]) if r[0] != "ok" else "") for r in (r1, r2)]
+        return False, "not accepted: " + " / ".join(what), nodrop, d2
     same_tree = json.dumps(show(r1[1])) == json.dumps(show(r2[1]))
-    g = count_gates(show(r1[1]))
-    return same_tree, "" if same_tree else "different S-expressions", g == n_gates, f"{g} gate statements in the tree, {n_gates} generated"
+    return same_tree, "" if same_tree else "different S-expressions", nodrop, d2
 
 
 def oracle_reject_position(text, lb_off):
@@ -611,7 +679,8 @@ def run(seed: int, n: int, driver: str = DEFAULT_DRIVER, thorough: bool = False)
     gen = Gen(rng)
     cases = []  # (stream, text)
     orc = {k: {"cases": 0, "failures": []} for k in
-           ("relayout_same_sexpr", "no_statement_dropped", "reject_position", "only_JaqalParseError")}
+           ("relayout_same_sexpr", "no_statement_dropped", "reject_position", "only_JaqalParseError",
+            "header_after_body", "error_pos_after_comments")}
     dist = collections.Counter()
 
     def fail(name, case, detail):
@@ -621,12 +690,47 @@ def run(seed: int, n: int, driver: str = DEFAULT_DRIVER, thorough: bool = False)
 
     for t in EDGE:
         cases.append(("edge", t))
-    for _ in range(n):
+    def expect_error_at(name, stream, text, off):
+        """Oracle: the real parser rejects `text` exactly at offset `off`."""
+        cases.append((stream, text))
+        want = list(line_col(text, off))
+        r = real_parse(text)
+        orc[name]["cases"] += 1
+        if r[0] != "err" or r[1] != want:
+            got = r[1] if r[0] != "ok" else "accepted"
+            fail(name, {"oracle": name, "text": text, "off": off}, f"expected error at {want}, got {r[0]} {got}")
+
+    combos = [(h, b) for h in Gen.HEADER_KINDS for b in Gen.BODY_KINDS]
+    for k in range(n):
+        gen.comment_rate = rng.choice([0.05, 0.2, 0.2, 0.5])
         valid = rng.random() < 0.8
         toks = gen.program(valid=valid)
         n_gates, stmt_start = gen.n_gates, gen.stmt_start
         text = gen.render(toks)
+        dist["block_comments_%s" % ("0" if gen.n_comments == 0 else "1" if gen.n_comments == 1 else ">=2")] += 1
         cases.append(("grammar", text))
+        # near miss: a header statement of each kind after a body made of one kind of statement only
+        hkind, bkind = combos[k % len(combos)]
+        htoks, at = gen.header_after_body(hkind, bkind)
+        htext, hoffs = gen.render_pos(htoks)
+        dist["header_after_%s" % bkind] += 1
+        expect_error_at("header_after_body", "hdrafter", htext, hoffs[at])
+        # error position after multi-line block comments: an illegal character inside a valid program,
+        # or a stray token after it
+        if valid:
+            save = gen.comment_rate
+            gen.comment_rate = 0.5
+            if rng.random() < 0.5:
+                j = rng.randrange(1, len(toks) + 1)
+                ptext = gen.render(toks[:j])
+                bad = rng.choice(["$", ")", "#"])
+            else:
+                ptext = gen.render(toks)
+                bad = rng.choice(["]", ",", "$", ":", "*"])
+            ptext += rng.choice([" ", "", "\t"]) + rng.choice(["/*\n*/", "/* a\n * b\n **/", "/***\n\n***/", "/*\n\n\n*/ /**/"]) + rng.choice([" ", ""])
+            dist["newlines_in_comments_before_error"] += 1
+            expect_error_at("error_pos_after_comments", "cmtpos", ptext + bad + rng.choice(["", " x", "\n"]), len(ptext))
+            gen.comment_rate = save
         dist["program_tokens_%s" % ("<10" if len(toks) < 10 else "<40" if len(toks) < 40 else ">=40")] += 1
         if valid:
             text2 = gen.render(toks)
@@ -705,6 +809,11 @@ def replay(case: dict, driver: str = DEFAULT_DRIVER) -> dict:
             ok, d = (ok1, d1) if name == "relayout_same_sexpr" else (bool(ok2), d2)
         elif name == "reject_position":
             _, ok, d = oracle_reject_position(text, case.get("lb_off"))
+        elif name in ("header_after_body", "error_pos_after_comments"):
+            want = list(line_col(text, case["off"]))
+            r = real_parse(text)
+            ok = r[0] == "err" and r[1] == want
+            d = "" if ok else f"expected error at {want}, got {r[0]} {r[1] if r[0] != 'ok' else 'accepted'}"
         else:
             r = real_lex(text) if case.get("op") == "lex" else real_parse(text)
             ok, d = r[0] != "crash", r[1] if r[0] == "crash" else ""
